@@ -39,7 +39,7 @@
 use crate::{
     error::{Error, ErrorExt, ErrorImpl},
     flags::{OpenFlags, ResolverFlags},
-    procfs::GLOBAL_PROCFS_HANDLE,
+    procfs::global_procfs_handle,
     resolvers::{opath::SymlinkStack, PartialLookup, MAX_SYMLINK_TRAVERSALS},
     syscalls,
     utils::{self, FdExt, PathIterExt},
@@ -74,7 +74,7 @@ fn check_current<RootFd: AsFd, Fd: AsFd, P: AsRef<Path>>(
     //         path will be re-checked after the unsafe "current_path" is
     //         generated.
     let root_path = root
-        .as_unsafe_path(&GLOBAL_PROCFS_HANDLE)
+        .as_unsafe_path(global_procfs_handle()?)
         .wrap("get root path to construct expected path")?;
 
     // Combine the root path and our expected_path to get the full path to
@@ -99,7 +99,7 @@ fn check_current<RootFd: AsFd, Fd: AsFd, P: AsRef<Path>>(
     // SAFETY: as_unsafe_path is safe here since we're explicitly doing a
     //         string-based check to see whether the path we want is correct.
     let current_path = current
-        .as_unsafe_path(&GLOBAL_PROCFS_HANDLE)
+        .as_unsafe_path(global_procfs_handle()?)
         .wrap("check fd against expected path")?;
 
     // The paths should be identical.
@@ -120,7 +120,7 @@ fn check_current<RootFd: AsFd, Fd: AsFd, P: AsRef<Path>>(
     // SAFETY: as_unsafe_path path is safe here because it's just used in a
     //         string check -- and it's known that this check isn't perfect.
     let new_root_path = root
-        .as_unsafe_path(&GLOBAL_PROCFS_HANDLE)
+        .as_unsafe_path(global_procfs_handle()?)
         .wrap("get root path to double-check it hasn't moved")?;
     if root_path != new_root_path {
         Err(ErrorImpl::SafetyViolation {
@@ -137,7 +137,8 @@ fn check_current<RootFd: AsFd, Fd: AsFd, P: AsRef<Path>>(
 // checking this for every symlink lookup is more likely to be an issue.
 // MSRV(1.80): Use LazyLock.
 static PROTECTED_SYMLINKS_SYSCTL: Lazy<u32> = Lazy::new(|| {
-    utils::sysctl_read_parse(&GLOBAL_PROCFS_HANDLE, "fs.protected_symlinks")
+    global_procfs_handle()
+        .and_then(|procfs| utils::sysctl_read_parse(procfs, "fs.protected_symlinks"))
         // The sysctl may be unreadable (an unprivileged caller on a /proc
         // mounted with subset=pid, for instance). Assume the restrictive
         // setting rather than panicking inside a lookup.
